@@ -66,6 +66,40 @@ def main():
         tot = dict(histories=0, ops_executed=0)
         per = []
         jobs = [(exe, img, opsf, k, P, Q, "v1") for k in KINDS] + [(exe, big, bopsf, k, P, Q, "big-inode-table") for k in ("meta-reader", "dir-reader", "dir-reader-dot")]
+        # the harness takes at most two operations per keyword and four in total, in file order: further operation alphabets for the readers whose
+        # caches matter (fragment block cached together with a data block of another size; tail ends of two files; streams)
+        def pick(prefixes):
+            out = []
+            for pre in prefixes:
+                c = [o for o in ops if o.startswith(pre)]
+                if c:
+                    out.append(c[0] if not pre.endswith("$last") else c[-1])
+            return out
+        reads = [o for o in ops if o.startswith("read ")]
+        frags = [o for o in ops if o.startswith("frag ")]
+        streams = [o for o in ops if o.startswith("stream ")]
+        blocks = [o for o in ops if o.startswith("block ")]
+        alts = {"ops-tails": [reads[2], reads[-1], frags[0], blocks[0]],             # tail end through read (fragment cache), second file's tail, get_fragment, a data block
+                "ops-streams": [streams[0], streams[-1], reads[2], frags[-1]],
+                "ops-mixed": [reads[0], frags[-1], blocks[0], streams[-1]]}
+        for aname, aops in alts.items():
+            f = os.path.join(sd, "ops_%s.txt" % aname.replace("@", "_"))
+            open(f, "w").write("\n".join(aops) + "\n")
+            IMGS[aname] = (img, f)
+            jobs.append((exe, img, f, "data-reader", P, Q, aname))
+        paths = [o for o in ops if o.startswith("path ")]
+        rdd = [o for o in ops if o.startswith("readdir ")]
+        ino = [o for o in ops if o.startswith("inode ")]
+        f = os.path.join(sd, "ops_paths.txt")
+        open(f, "w").write("\n".join([rdd[-1], paths[0], paths[-1], ino[3]]) + "\n")      # listing, successful and failing path resolution, failing inode fetch
+        IMGS["ops-paths"] = (img, f)
+        jobs.append((exe, img, f, "dir-reader", P, Q, "ops-paths"))
+        jobs.append((exe, img, f, "dir-reader-dot", P, Q, "ops-paths"))
+        xw = [o for o in ops if o.startswith("xwalk ")] + [o for o in ops if o.startswith("xattr ")]
+        f = os.path.join(sd, "ops_xwalk.txt")
+        open(f, "w").write("\n".join([xw[1], xw[2]] + [o for o in ops if o.startswith("xattr ")][:2]) + "\n")
+        IMGS["ops-xwalk"] = (img, f)
+        jobs.append((exe, img, f, "xattr-reader", P, Q, "ops-xwalk"))
         res = pmap(run_kind, jobs)
         for job, (kind, r, j) in zip(jobs, res):
             iname = job[6]
